@@ -410,6 +410,8 @@ type c16Ctx struct {
 	caseID   string
 	class    string
 	tampered bool
+	cut      bool // the stream was cut short (no byte altered)
+	hadErr   bool // an earlier message on this connection was rejected with a body-level error
 	dmgLo    int // damaged bit range in the stream [dmgLo, dmgHi)
 	dmgHi    int
 }
@@ -444,6 +446,9 @@ func c16Judge(ctx *c16Ctx, stream []byte, msgs []*c16Msg, idx int, o *c16Out, bu
 		if want == nil {
 			return
 		}
+		if o.class == 7 && ctx.cut {
+			return // the connection broke: waiting for the rest is all the receiver can do
+		}
 		if o.class != 1 {
 			c16Report(ctx, fmt.Sprintf("untampered-not-delivered/class-%d", o.class),
 				"a message of an undamaged stream was not delivered: "+o.errText, det)
@@ -473,8 +478,12 @@ func c16Judge(ctx *c16Ctx, stream []byte, msgs []*c16Msg, idx int, o *c16Out, bu
 	}
 	// damaged stream
 	if o.class == 1 {
+		after := ""
+		if ctx.hadErr {
+			after = "-after-rejected-message"
+		}
 		if want == nil {
-			c16Report(ctx, "tampered-delivered-extra-message", "damaged stream: a message was delivered that was never sent", det)
+			c16Report(ctx, "tampered-delivered-extra-message"+after, "damaged stream: a message was delivered that was never sent", det)
 			return
 		}
 		if o.hdrSame && o.argsSame && o.paySame {
@@ -492,6 +501,11 @@ func c16Judge(ctx *c16Ctx, stream []byte, msgs []*c16Msg, idx int, o *c16Out, bu
 			bytes.Equal(stream[end-4:end], []byte{0, 0, 0, 0}) && !bytes.Equal(want.frame[len(want.frame)-4:], []byte{0, 0, 0, 0}) {
 			c16Report(ctx, "tampered-delivered-altered/payload-crc-field-zeroed",
 				"damaged stream: altered payload delivered because the burst turned the payload checksum field into 0 (\"don't check\")", det)
+			return
+		}
+		if ctx.hadErr {
+			c16Report(ctx, "tampered-delivered-altered-after-rejected-message/"+what,
+				"damaged stream: after a message was rejected (checksum/decode error) the connection stays in use and a later message is delivered with "+what+" different from what was sent", det)
 			return
 		}
 		c16Report(ctx, "tampered-delivered-altered/"+what, "damaged stream: delivered "+what+" differs from what was sent", det)
@@ -666,8 +680,11 @@ func c16RunSeq(t *testing.T, tr *vw.Trace, r *vw.Rng, ctx *c16Ctx, isReq bool, m
 		if o.class == 2 || o.class == 7 || o.class == 8 {
 			break // net/rpc drops the connection
 		}
+		if o.class != 1 {
+			ctx.hadErr = true // net/rpc answers/records the error and keeps reading from the same connection
+		}
 	}
-	if !ctx.tampered && rc.offset() != len(stream) {
+	if !ctx.tampered && !ctx.cut && rc.offset() != len(stream) {
 		c16Report(ctx, "untampered-bleed/stream-not-consumed", "undamaged stream: bytes left over after the last message", map[string]interface{}{"left": len(stream) - rc.offset()})
 	}
 	tr.Op(9)
@@ -778,7 +795,7 @@ func TestVerifC16(t *testing.T) {
 			if cut {
 				k := r.Intn(len(s))
 				ctx.dmgLo, ctx.dmgHi = k*8, len(s)*8
-				ctx.tampered = false // a cut is not an alteration: everything delivered must still be right
+				ctx.tampered, ctx.cut = false, true // a cut is not an alteration: everything delivered must still be right
 				tr.Op(6, int64(k))
 				tr.Obs(0)
 				return s[:k]
